@@ -15,11 +15,14 @@ def sh(cmd, cwd=None, env=None, timeout=3000):
 
 def howto(src):
     t = open(os.path.join(src, "demo_howto.txt")).read()
+    t = re.sub(r"\\\s*\n\s*", " ", t)  # join continued lines
     m = re.search(r"((?:src|tests)/[A-Za-z0-9_/\.\-]+\.rs)", t)
     f = m.group(1) if m else None
     c = re.search(r"cargo test[^\n]*", t)
     cmd = c.group(0) if c else None
     cmd = re.sub(r"CARGO_TARGET_DIR=\S+\s*", "", cmd) if cmd else None
+    if cmd:
+        cmd = cmd.split("#")[0].strip()
     return f, cmd, t
 
 
@@ -30,8 +33,12 @@ def place_demo(wt, src, f):
         open(p, "w").write(demo)
         return
     s = open(p).read()
+    how = open(os.path.join(src, "demo_howto.txt")).read()
+    if re.search(r">>\s*%s|to the END of %s" % (re.escape(f), re.escape(f)), how):
+        open(p, "w").write(s.rstrip("\n") + "\n\n" + demo + "\n")
+        return
     i = s.rstrip().rfind("}")
-    open(p, "w").write(s[:i] + "\n" + demo + "\n}\n")
+    open(p, "w").write(s[:i] + "\n" + demo + "\n}\n" + s[i + 1:].lstrip("\n") if s[i + 1:].strip() else s[:i] + "\n" + demo + "\n}\n")
 
 
 def confirm(src, prop, name):
